@@ -130,6 +130,7 @@ type FuncCtx struct {
 	havocSources  []Term
 	inlineStack   []string // repository functions without a contract being executed in place
 	notes         []string
+	inNonBlocking bool // executing the communication of a select that has a default clause
 	loopUsed      map[*LoopContract]bool
 	codeSigs      map[string]int // loop headers that occur in the function's source
 	loopSigs      map[int]string // contract ordinal -> header of the loop it was applied to (for govc -gen-names)
